@@ -44,6 +44,12 @@ func die(a ...any) {
 type pkg struct {
 	funcs   map[string]*ast.FuncDecl // "Recv.Name" / "Name"
 	structs map[string]*ast.StructType
+	fileOf  map[string]string // function -> file it is declared in
+	vars    []pkgVar          // package-level variables
+}
+
+type pkgVar struct {
+	name, typ, file string
 }
 
 func typeStr(e ast.Expr) string {
@@ -83,7 +89,7 @@ func recvName(d *ast.FuncDecl) (typ, name string) {
 }
 
 func load(dir string) *pkg {
-	p := &pkg{funcs: map[string]*ast.FuncDecl{}, structs: map[string]*ast.StructType{}}
+	p := &pkg{funcs: map[string]*ast.FuncDecl{}, structs: map[string]*ast.StructType{}, fileOf: map[string]string{}}
 	fset := token.NewFileSet()
 	ents, err := os.ReadDir(dir)
 	if err != nil {
@@ -106,11 +112,24 @@ func load(dir string) *pkg {
 				}
 				if t, _ := recvName(d); t != "" {
 					p.funcs[t+"."+d.Name.Name] = d
+					p.fileOf[t+"."+d.Name.Name] = n
 				} else {
 					p.funcs[d.Name.Name] = d
+					p.fileOf[d.Name.Name] = n
 				}
 			case *ast.GenDecl:
 				for _, s := range d.Specs {
+					if vs, ok := s.(*ast.ValueSpec); ok && d.Tok == token.VAR {
+						for i, nm := range vs.Names {
+							t := ""
+							if vs.Type != nil {
+								t = typeStr(vs.Type)
+							} else if i < len(vs.Values) {
+								t = valueType(vs.Values[i])
+							}
+							p.vars = append(p.vars, pkgVar{nm.Name, t, n})
+						}
+					}
 					if ts, ok := s.(*ast.TypeSpec); ok {
 						if st, ok := ts.Type.(*ast.StructType); ok {
 							p.structs[ts.Name.Name] = st
@@ -821,6 +840,208 @@ func sendFileStoresOwnConfig(d *ast.FuncDecl) bool {
 	return arg != "" && arg == key
 }
 
+
+// ---------------------------------------------------------------------------------------------
+// Shared mutable objects: everything through which one request could reach another besides the fields of
+// the pooled objects themselves (those are the ctxFields / redirectFields tables). Listed: every field of
+// `App` and every package-level variable of the anchored files (of any type: pools, maps, slices, scalars),
+// with the functions OF THE WHOLE PACKAGE that write it (assign, index-assign, append, ++/--,
+// Get/Put/Store/Delete/Clear/LoadOrStore/...); and every pool of another file or package that a function
+// of the anchored files takes objects from (X.Get() / binder.GetFromThePool(&X)), with those functions.
+
+var anchoredFiles = map[string]bool{"ctx.go": true, "app.go": true, "router.go": true, "redirect.go": true,
+	"redirect_msgp.go": true, "bind.go": true, "ctx_interface.go": true}
+
+func valueType(e ast.Expr) string {
+	switch v := e.(type) {
+	case *ast.CompositeLit:
+		if v.Type != nil {
+			return typeStr(v.Type)
+		}
+	case *ast.UnaryExpr:
+		return "*" + valueType(v.X)
+	case *ast.CallExpr:
+		if id, ok := v.Fun.(*ast.Ident); ok && id.Name == "make" && len(v.Args) > 0 {
+			return typeStr(v.Args[0])
+		}
+	}
+	return "?"
+}
+
+func isContainerType(t string) bool {
+	return strings.Contains(t, "sync.Pool") || strings.Contains(t, "sync.Map") || strings.HasPrefix(t, "map[") ||
+		strings.HasPrefix(t, "[]") || strings.HasPrefix(t, "*map[") || strings.HasPrefix(t, "*[]")
+}
+
+type sharedObj struct {
+	owner, name, typ string
+	writers         map[string]bool
+}
+
+// rootOf strips index / slice / star / paren wrappers: app.treeStack[m][h] -> app.treeStack
+func rootOf(e ast.Expr) ast.Expr {
+	for {
+		switch x := e.(type) {
+		case *ast.IndexExpr:
+			e = x.X
+		case *ast.SliceExpr:
+			e = x.X
+		case *ast.StarExpr:
+			e = x.X
+		case *ast.ParenExpr:
+			e = x.X
+		default:
+			return e
+		}
+	}
+}
+
+var mutatingMethods = map[string]bool{"Get": true, "Put": true, "Store": true, "Delete": true, "Clear": true,
+	"LoadOrStore": true, "LoadAndDelete": true, "Swap": true, "CompareAndSwap": true, "CompareAndDelete": true}
+
+func (p *pkg) sharedObjects() []*sharedObj {
+	var objs []*sharedObj
+	appField := map[string]*sharedObj{}
+	if st, ok := p.structs["App"]; ok {
+		for _, f := range st.Fields.List {
+			for _, nm := range f.Names {
+				// every field: a scalar written while serving is as much a channel as a map
+				o := &sharedObj{"App", nm.Name, typeStr(f.Type), map[string]bool{}}
+				appField[nm.Name] = o
+				objs = append(objs, o)
+			}
+		}
+	} else {
+		die("type App not found")
+	}
+	pkgVar := map[string]*sharedObj{}
+	for _, v := range p.vars {
+		if anchoredFiles[v.file] {
+			o := &sharedObj{"package", v.name, v.typ, map[string]bool{}}
+			pkgVar[v.name] = o
+			objs = append(objs, o)
+		}
+	}
+	foreign := map[string]*sharedObj{}
+	isApp := func(e ast.Expr, recv string) bool { // app.F / x.app.F / <receiver of an App method>.F
+		switch x := e.(type) {
+		case *ast.Ident:
+			return x.Name == "app" || (recv != "" && x.Name == recv)
+		case *ast.SelectorExpr:
+			return x.Sel.Name == "app"
+		case *ast.CallExpr: // c.App().F
+			if s, ok := x.Fun.(*ast.SelectorExpr); ok {
+				return s.Sel.Name == "App"
+			}
+		}
+		return false
+	}
+	for name, d := range p.funcs {
+		recv := ""
+		if t, r := recvName(d); t == "App" {
+			recv = r
+		}
+		target := func(e ast.Expr) *sharedObj {
+			// app.mountFields.appList[k] = v writes (through) app.mountFields: walk down the selector chain
+			for {
+				switch x := rootOf(e).(type) {
+				case *ast.SelectorExpr:
+					if o, ok := appField[x.Sel.Name]; ok && isApp(x.X, recv) {
+						return o
+					}
+					e = x.X
+					continue
+				case *ast.Ident:
+					if o, ok := pkgVar[x.Name]; ok {
+						return o
+					}
+				}
+				return nil
+			}
+		}
+		ast.Inspect(d.Body, func(n ast.Node) bool {
+			switch x := n.(type) {
+			case *ast.AssignStmt:
+				for _, l := range x.Lhs {
+					if o := target(l); o != nil {
+						o.writers[name] = true
+					}
+				}
+			case *ast.IncDecStmt:
+				if o := target(x.X); o != nil {
+					o.writers[name] = true
+				}
+			case *ast.CallExpr:
+				if id, ok := x.Fun.(*ast.Ident); ok && (id.Name == "delete" || id.Name == "clear") && len(x.Args) > 0 {
+					if o := target(x.Args[0]); o != nil {
+						o.writers[name] = true
+					}
+				}
+				sel, ok := x.Fun.(*ast.SelectorExpr)
+				if !ok {
+					// binder.GetFromThePool[T](&binder.XPool)
+					if ix, ok := x.Fun.(*ast.IndexExpr); ok {
+						sel, _ = ix.X.(*ast.SelectorExpr)
+					}
+					if sel == nil {
+						return true
+					}
+				}
+				if mutatingMethods[sel.Sel.Name] {
+					recvX := sel.X
+					if u, ok := recvX.(*ast.UnaryExpr); ok {
+						recvX = u.X
+					}
+					if o := target(recvX); o != nil {
+						o.writers[name] = true
+						return true
+					}
+				}
+				if !anchoredFiles[p.fileOf[name]] {
+					return true
+				}
+				// pools of other files / packages used from the anchored files
+				fname := ""
+				switch {
+				case sel.Sel.Name == "Get" || sel.Sel.Name == "Put":
+					switch r := sel.X.(type) {
+					case *ast.Ident:
+						if strings.HasSuffix(strings.ToLower(r.Name), "pool") && pkgVar[r.Name] == nil {
+							fname = r.Name
+						}
+					}
+				case sel.Sel.Name == "GetFromThePool" || sel.Sel.Name == "PutToThePool":
+					if len(x.Args) > 0 {
+						a := x.Args[0]
+						if u, ok := a.(*ast.UnaryExpr); ok {
+							a = u.X
+						}
+						fname = typeStr(a)
+					}
+				}
+				if fname != "" {
+					o := foreign[fname]
+					if o == nil {
+						o = &sharedObj{"foreign", fname, "pool", map[string]bool{}}
+						foreign[fname] = o
+					}
+					o.writers[name] = true
+				}
+			}
+			return true
+		})
+	}
+	var fnames []string
+	for k := range foreign {
+		fnames = append(fnames, k)
+	}
+	sort.Strings(fnames)
+	for _, k := range fnames {
+		objs = append(objs, foreign[k])
+	}
+	return objs
+}
+
 func main() {
 	repo := flag.String("repo", "/repo", "fiber repository")
 	out := flag.String("out", "lean/FiberModel/Generated/C05Facts.lean", "output file")
@@ -903,6 +1124,22 @@ func main() {
 			sep = ""
 		}
 		fmt.Fprintf(&b, "  (%q, %v)%s\n", f, sfCmp[f], sep)
+	}
+	b.WriteString("]\n\n")
+	b.WriteString("/-- shared mutable objects reachable from a handler (App fields and package-level variables of the\n    anchored files that are pools / maps / slices, pools of other files used from the anchored files) with the\n    functions of the package that write them -/\n")
+	b.WriteString("def sharedObjects : List SharedObj := [\n")
+	objs := p.sharedObjects()
+	for i, o := range objs {
+		var ws []string
+		for w := range o.writers {
+			ws = append(ws, fmt.Sprintf("%q", w))
+		}
+		sort.Strings(ws)
+		sep := ","
+		if i+1 == len(objs) {
+			sep = ""
+		}
+		fmt.Fprintf(&b, "  ⟨%q, %q, %q, [%s]⟩%s\n", o.owner, o.name, o.typ, strings.Join(ws, ", "), sep)
 	}
 	b.WriteString("]\n\n")
 	b.WriteString("def lifecycle : Lifecycle := {\n")
